@@ -111,6 +111,17 @@ func checkMatchDispatch(r *Run, prog *Program, a *Anchors, pfx string) {
 			arms[c.Name()][sc.name] = info
 			ps := NewPathSim(prog)
 			var getErrSym, mErrSym *Sym
+			ps.Inline = func(callee *ssa.Function) bool {
+				if !prog.InModule(callee) || callee == a.GetValue || callee == a.GetOpts || callee == a.EqTable || callee == a.CoerceTab {
+					return false
+				}
+				for _, m := range a.Matchers {
+					if m == callee {
+						return false
+					}
+				}
+				return callee.Signature.Recv() == nil
+			}
 			ps.Seed = func(st *pstate) { st.eqc[opKey] = constKey(c) }
 			ps.Model = func(ev *Event) *Sym {
 				if ev.Callee == a.GetValue {
